@@ -253,6 +253,8 @@ struct RefEval {
     const std::map<const TreeData*, float>* vars = nullptr;
     struct Env { Dual x, y, z; std::map<const TreeData*, Dual> memo; };
     bool unsupported = false;
+    bool coordUndefined = false;
+    bool sawNan = false;        // some sub-expression is NaN at this point (sticky per at())
 
     static Dual unb(long double v) { Dual r; r.v = {v, INFINITY}; for (auto& d : r.d) d = {0, INFINITY}; return r; }
 
@@ -348,10 +350,17 @@ struct RefEval {
             inner.y = eval(t->y.get(), env);
             inner.z = eval(t->z.get(), env);
             r = eval(t->t.get(), inner);
+            // A coordinate map that is itself undefined (NaN / inf / no bound) at this point: the composite's
+            // gradient is not defined there even if the body ignores that coordinate (the chain rule through
+            // the oracle multiplies 0 by NaN, the flattened plain tree drops the coordinate) -> no gradient bound.
+            for (const Dual* c : {&inner.x, &inner.y, &inner.z})
+                if (!std::isfinite((double)c->v.v) || !std::isfinite((double)c->v.e))
+                    coordUndefined = true;      // sticky for this evaluation, see at()
         } else {
             unsupported = true;
             r = unb(NAN);
         }
+        if (std::isnan((double)r.v.v)) sawNan = true;
         env.memo[d] = r;
         return r;
     }
@@ -361,7 +370,11 @@ struct RefEval {
         env.x = dconst(x); env.x.d[0] = cst(1);
         env.y = dconst(y); env.y.d[1] = cst(1);
         env.z = dconst(z); env.z.d[2] = cst(1);
-        return eval(t.get(), env);
+        coordUndefined = false;
+        sawNan = false;
+        Dual r = eval(t.get(), env);
+        if (coordUndefined) for (auto& dd : r.d) dd.e = INFINITY;
+        return r;
     }
 };
 
